@@ -377,7 +377,7 @@ func TestVX_C04pid(t *testing.T) {
 		return
 	}
 	ranges := [][2]int{{0, 255}, {50, 150}}
-	ticks := []int{200}
+	ticks := []int{200, 2000} // quick: the default period and the longest documented one (histories of one phase only for the latter)
 	vs := []int{0, 64, 128, 192, 255}
 	maxLen := 2
 	if mc.Thorough() {
@@ -459,6 +459,9 @@ func TestVX_C04pid(t *testing.T) {
 				rep.Note(fmt.Sprintf("limits %v tick %dms: K_fresh=%d cycles, allowed settle index after any history %d, constancy window %d", r, tickMs, kFresh, allow, window))
 				for hi, h := range hists {
 					if len(h) == 0 {
+						continue
+					}
+					if !mc.Thorough() && !replaying && tickMs != 200 && len(h) > 1 {
 						continue
 					}
 					if replaying && fmt.Sprint(h) != fmt.Sprint(rc.History) {
